@@ -168,7 +168,11 @@ impl Property for C13 {
             // fees must come from the trader, not from the vault
             if let (Act::Close { .. }, true) = (&act, rc.ok && pulled > 0) {
                 let snap = inn.w.snapshot();
-                let r0 = inn.exec_act(&act);
+                let r0 = {
+                    let (msg, _) = inn.engine_msg(&act).unwrap();
+                    let engine = inn.w.engine.clone();
+                    inn.w.exec(&sender, &engine, &msg, &[], None)
+                };
                 inn.w.restore(&snap);
                 out.count("native_close_without_attached_fees_attempts");
                 if r0.ok {
@@ -211,7 +215,8 @@ impl Property for C13 {
                 }
             }
             let rn = match attach_override {
-                Some(a) if a > 0 && !matches!(act, Act::Deposit { .. }) => {
+                // (a close attaches exactly what the cw20 twin pulled, also when that is nothing)
+                Some(a) if (a > 0 || matches!(act, Act::Close { .. })) && !matches!(act, Act::Deposit { .. }) => {
                     let (msg, _) = inn.engine_msg(&act_n).unwrap();
                     let funds = inn.w.funds(a);
                     let engine = inn.w.engine.clone();
